@@ -902,6 +902,15 @@ func (c *Conn) WriteFrame(messageType MessageType, sendOpcode, fin bool, data []
 		return net.ErrClosed
 	}
 
+	switch messageType {
+	case PingMessage, PongMessage, CloseMessage:
+		// as WriteMessage: RFC 6455 5.5.
+		if len(data) > maxControlFramePayloadSize {
+			return ErrControlMessageTooBig
+		}
+	default:
+	}
+
 	return c.writeFrame(messageType, sendOpcode, fin, data, false)
 }
 
